@@ -27,6 +27,7 @@ def run(ck):
     r3_channels(ck, w)
     r4_totality(ck, w)
     r5_scaling(ck, w)
+    r6_repeated_labels(ck, w)
 
 
 def r1_member(ck, w):
@@ -279,3 +280,23 @@ def all_deps(vf, node):
     for x in per_arg:
         d |= x or frozenset()
     return d
+
+
+def r6_repeated_labels(ck, w, rule='C15.R6'):
+    """a fixed base may occur several times in a batched guard"""
+    from ..core import walk, callee
+    from ..engines import hirq
+    ck.rule(rule, 'Accumulator::from_dual_msm sorts the terms of a dual MSM into variable bases and named fixed bases.  A batched guard (batch_verify scales and adds '
+                  'the guards of several proofs) carries the same fixed-base label once per proof under one verifying key, so the scalars of a label ADD UP: the map '
+                  'of fixed-base scalars is updated through entry(..) / get_mut with `+=`, never with a plain insert (which keeps the last scalar only and turns a '
+                  'valid batch into an accumulator that fails its check).  Sibling routines Msm::accumulate_with_r and AssignedMsm::add_msm add as well.')
+    fs = [f for f in w.all_fns(['circuits']) if f.get('name') == 'from_dual_msm' and 'accumulator' in f['file'] and '::tests' not in f['_nid']]
+    if not fs:
+        ck.bad(rule, 'from_dual_msm:anchor', 'Accumulator::from_dual_msm not found (anchor)')
+    for f in fs:
+        ins = [c for c in hirq.calls(f['body']) if (callee(c) or '').endswith('BTreeMap::insert')]
+        adds = [x for x in walk(f['body']) if x.get('k') == 'assignop' and x.get('op') in ('+', '+=')] + \
+               [c for c in hirq.calls(f['body']) if (callee(c) or '').endswith('AddAssign::add_assign')]
+        ck.record(rule, 'from_dual_msm:scalars-add-up', not ins and bool(adds), f'{len(adds)} accumulating update(s), no plain insert',
+                  f'{f["_nid"]} stores fixed-base scalars with BTreeMap::insert ({len(ins)} site(s), accumulating updates: {len(adds)}): a label that occurs twice keeps '
+                  f'its last scalar only, the accumulator of a valid batch of guards fails its check', hirq.fn_loc(f))
